@@ -191,7 +191,8 @@ def _jplus(j, *, dtype=None):
     """
     m = np.arange(j, -j - 1, -1, dtype=complex)
     data = np.sqrt(j * (j + 1) - m * (m + 1))[1:]
-    return _data.diag[dtype](data, 1)
+    # A list of one diagonal: it is empty for j = 0.
+    return _data.diag[dtype]([data], [1])
 
 
 def _jz(j, *, dtype=None):
@@ -499,7 +500,9 @@ def destroy(N: int, offset: int = 0, *, dtype: LayerType = None) -> Qobj:
     if not isinstance(N, (int, np.integer)):  # raise error if N not integer
         raise ValueError("Hilbert space dimension must be integer value")
     data = np.sqrt(np.arange(offset+1, N+offset, dtype=complex))
-    return qdiags(data, 1, dtype=dtype)
+    # A list of one diagonal: for N = 1 the diagonal is empty, and a bare empty
+    # sequence would be read as "no diagonals at all".
+    return qdiags([data], [1], dtype=dtype)
 
 
 def create(N: int, offset: int = 0, *, dtype: LayerType = None) -> Qobj:
@@ -538,7 +541,8 @@ def create(N: int, offset: int = 0, *, dtype: LayerType = None) -> Qobj:
     if not isinstance(N, (int, np.integer)):  # raise error if N not integer
         raise ValueError("Hilbert space dimension must be integer value")
     data = np.sqrt(np.arange(offset+1, N+offset, dtype=complex))
-    return qdiags(data, -1, dtype=dtype)
+    # A list of one diagonal: see `destroy`.
+    return qdiags([data], [-1], dtype=dtype)
 
 
 def fdestroy(n_sites: int, site, dtype: LayerType = None) -> Qobj:
